@@ -13,6 +13,7 @@ import (
 	"os"
 	"os/exec"
 	"os/signal"
+	"path/filepath"
 	"runtime"
 	"strconv"
 	"strings"
@@ -280,6 +281,11 @@ func vfsStore(name string, b []byte, store func(name string, b []byte) error) (e
 		c := vfs.crashAt
 		vfs.crashAt = -1
 		if c == 0 {
+			// the model crashes at the first file-system *mutation*: a Store that finds the node
+			// already there makes none and completes
+			if _, serr := os.Stat(filepath.Join(vfs.dir, name)); serr == nil {
+				return store(name, b), false
+			}
 			vfs.crashed = true
 			return nil, true // crashed before anything happened
 		}
